@@ -542,7 +542,7 @@ variable {gh : Ghost}
 
 /-! ## one step -/
 
-theorem SInv.init (lines cols : Int) (hgt : gh.term = 0) :
+theorem SInv.init (lines cols : Int) (hgt : gh.term = 0) (hgw : gh.win 0 = 0) :
     SInv gh ({ tree := { wins := #[({ rect := ⟨0, 0, lines, cols⟩, isRoot := true } : Win)], root := {} }, wx := #[{}], term := { refcount := 2 } } : St) := by
   have hget : ∀ (i : Nat) (w : Win), (#[({ rect := ⟨0, 0, lines, cols⟩, isRoot := true } : Win)])[i]? = some w →
       i = 0 ∧ w = { rect := ⟨0, 0, lines, cols⟩, isRoot := true } := by
@@ -566,7 +566,10 @@ theorem SInv.init (lines cols : Int) (hgt : gh.term = 0) :
     ⟨{ rect := ⟨0, 0, lines, cols⟩, isRoot := true }, by simp, rfl⟩
   refine ⟨⟨tinv, rfl, ?_, List.nodup_nil, by intro i hi; simp at hi, ?_, ⟨?_, ?_, ?_⟩, ?_, ?_, ?_, ?_⟩, ?_⟩
   rotate_right
-  · intro i w hl; obtain ⟨rfl, rfl⟩ := hlive i w hl; show (1 : Int) ≤ ((1 : Nat) : Int) + (gh.win 0 : Int); omega
+  · intro i w hl; obtain ⟨rfl, rfl⟩ := hlive i w hl
+    refine ⟨?_, fun _ => ?_⟩
+    · show (1 : Int) ≤ ((1 : Nat) : Int) + (gh.win 0 : Int); omega
+    · show ((1 : Nat) : Int) + (gh.win 0 : Int) ≤ 1; rw [hgw]; decide
   · intro i w hl; obtain ⟨_, rfl⟩ := hlive i w hl; show (1 : Int) ≤ 1; omega
   · intro i w h hf _; obtain ⟨_, rfl⟩ := hget i w h; cases hf
   · intro k p hk; simp at hk
@@ -582,10 +585,10 @@ theorem liftT_ok {st : St} {r : Out Tree} {t' : Tree} (h : r = .ok t') : liftT s
 
 /-- Every operation that runs no handler keeps the invariant and never fails. -/
 theorem step_plain_ok {cfg : Cfg} (R : Repaired cfg) {st : St} (inv : SInv gh st) (op : Op) (hp : op.plain = true)
-    (hnew : ∀ l c m, op = .newTerm l c m → gh.term = 0) :
+    (hnew : ∀ l c m, op = .newTerm l c m → gh.term = 0 ∧ gh.win 0 = 0) :
     ∃ st' r, step cfg st op = .ok (st', r) ∧ SInv gh st' := by
   cases op <;> simp only [Op.plain, Bool.false_eq_true] at hp <;> unfold step
-  case newTerm lines cols mock => exact ⟨_, _, rfl, SInv.init lines cols (hnew _ _ _ rfl)⟩
+  case newTerm lines cols mock => exact ⟨_, _, rfl, SInv.init lines cols (hnew _ _ _ rfl).1 (hnew _ _ _ rfl).2⟩
   case win p r f =>
     by_cases hu : usableW st p = true
     · obtain ⟨⟨pw, hpl⟩, _⟩ := usableW_spec inv.tinv hu
